@@ -6,6 +6,7 @@ duplicate policy names, `false` as component index, empty `protected` maps of CO
 embedded (unsevered) text maps, suit-delegation, ciphertext exactly h'f6' (known finding F4-residue,
 exercised by a directed witness), integer keys in suit-dependencies (YAML), raw UUIDs that are not 16 bytes.
 """
+import random
 import json
 
 from ..indep import registry as R
@@ -65,7 +66,14 @@ def rstr(r, tricky=True):
 
 
 def policy(r):
-    return [p for p in POL if r.random() < 0.5]
+    out = [p for p in POL if r.random() < 0.5]
+    # a policy is a SET of flags: naming one twice, or in another order, describes the same set (derived choice, r untouched)
+    st = r.getstate()[1]
+    rr = random.Random(f"policy/{st[-1]}/{st[st[-1] % 624]}/" + ",".join(out))
+    if out and rr.random() < 0.1:
+        out = out + [rr.choice(out) for _ in range(rr.choice([1, 1, 2]))]
+        rr.shuffle(out)
+    return out
 
 
 def uuid_obj(r):
@@ -236,7 +244,23 @@ def sequence(r, ncomp, depth=0, n=None, maxdepth=2):
     if n is None:
         # element COUNTS also cross the CBOR header widths: 12 commands = 24 array items, 128 commands = 256 items
         n = r.choice([0, 1, 2, 3, 5, 8]) if (depth > 0 or r.random() > 0.04) else r.choice([11, 12, 13, 127, 128])
-    return [command(r, ncomp, depth, maxdepth) for _ in range(n)]
+    out = [command(r, ncomp, depth, maxdepth) for _ in range(n)]
+    # a form the tool accepts beyond its documented grammar: ONE list item holding several commands (the `- ` of the next
+    # command left out in YAML) - it stands for the same flat code/argument pairs in the order written.  The choice is
+    # derived from the sequence itself, not drawn from r, so that every other generated value stays what it was.
+    if len(out) >= 2:
+        rr = random.Random("merge/" + "/".join(k for c in out for k in c) + f"/{depth}/{len(out)}")
+        if rr.random() < 0.12:
+            merged = []
+            for c in out:
+                # (the tool takes a multi-command item only when all its commands are conditions or all are directives)
+                if merged and rr.random() < 0.6 and not (set(c) & set(merged[-1])) and \
+                        len({k.split("-")[1] for k in list(c) + list(merged[-1])}) == 1:
+                    merged[-1] = {**merged[-1], **c}
+                else:
+                    merged.append(c)
+            out = merged
+    return out
 
 
 def comp_part(r):
